@@ -19,6 +19,9 @@ inductive Val
   | int (i : Int)
   | rat (q : Rat)
   | str (s : String)
+  /-- the float `-0.0` (produced by quantised samplers: `np.round(x / q) * q`); equal to
+  `0.0` for Python, but with its own match string `-0.000000e+00` -/
+  | nzero
 deriving DecidableEq, Repr, Inhabited
 
 inductive VType | int | float | str
@@ -28,11 +31,19 @@ def Val.vtype : Val → VType
   | .int _ => .int
   | .rat _ => .float
   | .str _ => .str
+  | .nzero => .float
 
 def Val.num? : Val → Option Rat
   | .int i => some (i : Rat)
   | .rat q => some q
   | .str _ => none
+  | .nzero => some 0
+
+/-- Python `==` on values (`-0.0 == 0.0`) -/
+def Val.pyEq (a b : Val) : Bool :=
+  match a.num?, b.num? with
+  | some x, some y => decide (x = y)
+  | _, _ => decide (a = b)
 
 /-- errors of the model: a Python `assert`/exception (`assertion`, `keyError`,
 `valueError`), an input tape that is too short (`tape`), a construct the model does not
@@ -84,6 +95,7 @@ def Dom.member (d : Dom) (v : Val) : Bool :=
     | _ => false
   | .float lo hi _ _ => match v with
     | .rat q => decide (lo ≤ q) && decide (q ≤ hi)
+    | .nzero => decide (lo ≤ 0) && decide (0 ≤ hi)
     | _ => false
   | .fin vals _ _ _ _ _ => vals.contains v
 
@@ -120,6 +132,8 @@ def coerce (t : VType) (v : Val) : Except Err Val :=
   | .int, .rat q => .ok (.int (truncRat q))
   | .float, .int i => .ok (.rat i)
   | .float, .rat q => .ok (.rat q)
+  | .float, .nzero => .ok .nzero
+  | .int, .nzero => .ok (.int 0)
   | .str, .str s => .ok (.str s)
   | .str, _ => .error (.unsupported "str() of a number")
   | _, .str _ => .error (.valueError "number from str")
@@ -209,11 +223,15 @@ def Dom.cast (d : Dom) (v : Val) (hint : Option Nat) : Except Err Val :=
     match v with
     | .int i => .ok (.int i)
     | .rat q => .ok (.int (roundHalfEven q))
+    | .nzero => .ok (.int 0)
     | .str _ => .error (.valueError "round() of str")
   | .float _ _ _ _ =>
-    match v.num? with
-    | some x => .ok (.rat x)
-    | none => .error (.valueError "float() of str")
+    match v with
+    | .nzero => .ok .nzero
+    | _ =>
+      match v.num? with
+      | some x => .ok (.rat x)
+      | none => .error (.valueError "float() of str")
   | .fin vals lo hi log _ raw =>
     match v.num? with
     | none => .error (.valueError "clip of str")
@@ -299,9 +317,11 @@ def Dom.matchPart (d : Dom) (v : Val) : Except Err String :=
   | .int _ _ _ _ => match v with
     | .int i => .ok (toString i)
     | _ => .error (.unsupported "str() of a non-int for an Integer domain")
-  | .float _ _ _ _ => match v.num? with
-    | some x => .ok (fmt6e x)
-    | none => .error (.valueError "format of str")
+  | .float _ _ _ _ => match v with
+    | .nzero => .ok "-0.000000e+00"
+    | _ => match v.num? with
+      | some x => .ok (fmt6e x)
+      | none => .error (.valueError "format of str")
   | .fin vals lo hi log _ raw => match v.num? with
     | some x => .ok (toString (finIdx lo hi log raw vals.length x none))
     | none => .error (.valueError "clip of str")
@@ -410,7 +430,12 @@ def Dom.bounds : Dom → Rat × Rat
 def perturb (d : Dom) (old : Val) (mult : Rat) (hint : Option Nat) : Except Err Val :=
   match old.num? with
   | none => .error (.valueError "str * float")
-  | some x => d.cast (.rat (clipRat (x * mult) d.bounds.1 d.bounds.2)) hint
+  | some x =>
+    if old = .nzero then
+      -- (-0.0) * multiplier = -0.0; `np.clip` keeps it when 0 is strictly inside the bounds
+      (if d.bounds.1 < 0 ∧ 0 < d.bounds.2 then d.cast .nzero hint
+       else .error (.unsupported "clip of negative zero at a bound"))
+    else d.cast (.rat (clipRat (x * mult) d.bounds.1 d.bounds.2)) hint
 
 /-- the loop of `PopulationBasedTraining._explore` over the hyperparameters (in
 `config_space` order); returns the new values and the rest of the tape. -/
@@ -527,6 +552,7 @@ inductive J
   | num (x : Rat)
   | int (i : Int)
   | str (s : String)
+  | nzero
   | arr (xs : List J)
   | obj (kv : List (String × J))
 deriving Repr, Inhabited
@@ -539,6 +565,7 @@ def encVal : Val → J
   | .int i => .int i
   | .rat q => .num q
   | .str s => .str s
+  | .nzero => .nzero
 
 def encConfig (c : Config) : J := .obj (c.map fun kv => (kv.1, encVal kv.2))
 
@@ -566,6 +593,7 @@ def decVal : J → Except Err Val
   | .int i => .ok (.int i)
   | .num q => .ok (.rat q)
   | .str s => .ok (.str s)
+  | .nzero => .ok .nzero
   | _ => .error (.valueError "hyperparameter value")
 
 def decKVs {α} (f : J → Except Err α) : List (String × J) → Except Err (List (String × α))
